@@ -314,6 +314,13 @@ func NewPool(kt string, code uint, variant string) *Pool {
 			s.JWS = &JWSOpts{SigMut: func(b []byte) []byte { return append(append([]byte{}, b...), 0) }}
 		}, nil)
 		forged("h", func(s *OpSpec) { s.RevealKey = s.SignKey; s.SignKey = k("a0") }, func(a *sidetree.Op) { a.ParseOK = false })
+		// (r) attacker key revealed and signed (like d), plus an extra signed member "revealValue" holding the reveal value of the
+		// committed key: the request's own reveal value decides which commitment the operation is tried against
+		forged("r", func(s *OpSpec) {
+			legit := s.SignKey
+			s.SignKey = k("a0")
+			s.SignedExtra = map[string]interface{}{"revealValue": Reveal(legit, code)}
+		}, func(a *sidetree.Op) { a.Authorized = true; a.Reveals = c("a0") })
 		// (w) committed key in the payload, signed by the attacker, and a signed window that fails at every grid time:
 		// the out-of-window shortcut must not be reachable without a valid signature
 		forged("w", func(s *OpSpec) { s.PayloadKey = s.SignKey; s.SignKey = k("a0"); s.From, s.Until = LateFrom, LateUntil }, nil)
